@@ -13,6 +13,7 @@ Decided here, from the MIR of every float-writer back-end that the configuration
                  on paths where round_mode() is Round
 Not decided: digit counts, rounding values, padding and trimming as functions of (value, options)."""
 from rules.core import rvalue_expr
+from rules import extra as X
 from rules.core import (guarded, callee_name, last_seg, op_expr, show, strip_casts, expr_calls, enum_paths,
                         AnchorMissing, copy_root)
 
@@ -645,3 +646,4 @@ def run(col, configs, tier):
         guarded(col, rule_decimal_tie, facts)
         guarded(col, rule_padding_not_disabled_by_trim, facts)
         guarded(col, rule_cut_exposes_no_zeros, facts)
+        guarded(col, X.rule_incremented_digit_in_range, facts)
